@@ -44,7 +44,7 @@ def jobs_for(tier, rng):
         jobs.append({"mdp": gen.corridors(rng, N, lengths), "kind": "PI", "gamma": [1, 2], "eps": [1, 2],
                      "test": rng.choice(["span", "max_diff"]), "reset": False, "max_eval_iter": rng.choice([2, 40]),
                      "mbs": rng.choice([1024, 4096]), "calls": [max(lengths) + 4], "cert": False, "quotient": True,
-                     "tag": f"corridors{N}"})
+                     "tag": f"corridors{N}", "min_sweeps": max(lengths) + 1})
     return jobs
 
 
